@@ -95,6 +95,9 @@ func c03Exec(c *Sexp) Outcome {
 	if fail == "" && !strings.Contains(obs.viaParse, fmt.Sprintf("calls=%d", obs.calls)) {
 		fail = fmt.Sprintf("call count not reproduced on a fresh context: %d vs %s", obs.calls, obs.viaParse)
 	}
+	if fail == "" {
+		fail = reuseOracle(obs) // the memoized grammar on a graph that already parsed another (mostly shorter) input
+	}
 	o.OracleFail = fail
 	o.Nontrivial = obs.rec.memoCalls-obs.rec.bodyTotal > 0 // at least one cache hit
 	if obs.calls < sobs.calls {
